@@ -114,6 +114,31 @@ type Gamma[T any] interface {
 type NotIface struct{ X int }
 `
 
+const srcEnc = `package src
+
+import "scn/sigs/yaml"
+
+// Enc and Dec use two packages that are both called yaml; neither file gives
+// them an alias, so moq has to invent one.
+type Enc interface {
+	Encode(n *yaml.Node) error
+}
+`
+
+const srcDec = `package src
+
+import "scn/gopkg/yaml.v3"
+
+type Dec interface {
+	Unmarshal(data []byte) (*yaml.Node, error)
+}
+
+type Codec interface {
+	Enc
+	Dec
+}
+`
+
 func srcVersion(v int) string {
 	switch v % 3 {
 	case 0:
@@ -166,7 +191,17 @@ type procResult struct {
 	TimedOut bool
 }
 
+// runMoqStdout runs moq with its standard output connected to a real file
+// (e.g. /dev/full, where every write fails with ENOSPC).
+func (r *Runner) runMoqStdout(cwd string, args []string, stdout string, tmp string) procResult {
+	return r.runMoqTo(cwd, args, nil, tmp, stdout)
+}
+
 func (r *Runner) runMoq(cwd string, args []string, plan *simos.Rule, tmp string) procResult {
+	return r.runMoqTo(cwd, args, plan, tmp, "")
+}
+
+func (r *Runner) runMoqTo(cwd string, args []string, plan *simos.Rule, tmp string, stdoutPath string) procResult {
 	env := append([]string(nil), r.Env...)
 	logPath := filepath.Join(tmp, "oplog.jsonl")
 	os.Remove(logPath)
@@ -182,6 +217,12 @@ func (r *Runner) runMoq(cwd string, args []string, plan *simos.Rule, tmp string)
 	cmd.Env = env
 	var so, se bytes.Buffer
 	cmd.Stdout, cmd.Stderr = &so, &se
+	if stdoutPath != "" {
+		if f, err := os.OpenFile(stdoutPath, os.O_WRONLY, 0); err == nil {
+			defer f.Close()
+			cmd.Stdout = f
+		}
+	}
 	res := procResult{}
 	if err := cmd.Start(); err != nil {
 		res.Exit = -1
@@ -235,6 +276,13 @@ func copyDir(src, dst string) error {
 		if d.IsDir() {
 			return os.MkdirAll(t, 0o755)
 		}
+		if d.Type()&fs.ModeSymlink != 0 {
+			l, err := os.Readlink(p)
+			if err != nil {
+				return err
+			}
+			return os.Symlink(l, t)
+		}
 		data, err := os.ReadFile(p)
 		if err != nil {
 			return err
@@ -244,16 +292,21 @@ func copyDir(src, dst string) error {
 	})
 }
 
-func setup(root string) error {
+func setup(root string, sc *Scenario) error {
 	files := map[string]string{
-		"go.mod":           "module scn\n\ngo 1.24\n",
-		"src/src.go":       srcVersion(0),
-		"dep/dep.go":       "package dep\n\ntype Item struct {\n\tID   string\n\tSize int\n}\n",
-		"blocker":          "this is a regular file where a directory is wanted\n",
-		"adir/keep.txt":    "keep\n",
-		"mocks/doc.go":     "// Package mocks holds generated mocks.\npackage mocks\n",
-		"sibling/s.go":     "package sibling\n\nconst Untouched = true\n",
-		"sibling/data.bin": "\x00\x01\x02binary",
+		"go.mod":                 "module scn\n\ngo 1.24\n",
+		"src/src.go":             srcVersion(0),
+		"src/enc.go":             srcEnc,
+		"src/dec.go":             srcDec,
+		"sigs/yaml/yaml.go":      "package yaml\n\ntype Node struct{ Kind int }\n",
+		"gopkg/yaml.v3/yaml.go":  "package yaml\n\ntype Node struct{ Tag string }\n",
+		"linktarget/real_gen.go": "package mocks\n\n// placeholder that -out points at through a symbolic link\n",
+		"dep/dep.go":             "package dep\n\ntype Item struct {\n\tID   string\n\tSize int\n}\n",
+		"blocker":                "this is a regular file where a directory is wanted\n",
+		"adir/keep.txt":          "keep\n",
+		"mocks/doc.go":           "// Package mocks holds generated mocks.\npackage mocks\n",
+		"sibling/s.go":           "package sibling\n\nconst Untouched = true\n",
+		"sibling/data.bin":       "\x00\x01\x02binary",
 	}
 	for rel, content := range files {
 		p := filepath.Join(root, rel)
@@ -264,11 +317,37 @@ func setup(root string) error {
 			return err
 		}
 	}
+	if sc.Place.Symlink != "" {
+		link := filepath.Clean(filepath.Join(root, "src", sc.Place.Out))
+		if err := os.Symlink(sc.Place.Symlink, link); err != nil {
+			return err
+		}
+	}
+	if sc.IncompleteMod {
+		// src needs example.com/dep1, which needs example.com/dep2; the main
+		// go.mod replaces both but requires only dep1: "updates to go.mod needed"
+		extra := map[string]string{
+			"go.mod":             "module scn\n\ngo 1.24\n\nrequire example.com/dep1 v0.0.0\n\nreplace example.com/dep1 => ./third/dep1\n\nreplace example.com/dep2 => ./third/dep2\n",
+			"third/dep1/go.mod":  "module example.com/dep1\n\ngo 1.24\n\nrequire example.com/dep2 v0.0.0\n",
+			"third/dep1/dep1.go": "package dep1\n\nimport \"example.com/dep2\"\n\ntype One struct{ Two dep2.Two }\n",
+			"third/dep2/go.mod":  "module example.com/dep2\n\ngo 1.24\n",
+			"third/dep2/dep2.go": "package dep2\n\ntype Two struct{ V int }\n",
+			"src/uses_dep1.go":   "package src\n\nimport \"example.com/dep1\"\n\ntype Third interface{ One() dep1.One }\n",
+		}
+		for rel, content := range extra {
+			p := filepath.Join(root, rel)
+			os.MkdirAll(filepath.Dir(p), 0o755)
+			if err := os.WriteFile(p, []byte(content), 0o644); err != nil {
+				return err
+			}
+		}
+	}
 	return nil
 }
 
 // model of the scenario's world, kept by the driver
 type world struct {
+	outReal   string // where a symlinked -out really lives ("" otherwise)
 	version   int
 	broken    bool
 	prior     string // absent, own, stale, truncate, garbage, empty, otherpkg, selfdecl, aliases, torn, dir
@@ -283,7 +362,7 @@ func (r *Runner) Run(sc *Scenario, id string) ([]Finding, *Stats, error) {
 	st := &Stats{FaultsFired: map[string]int{}, Outcomes: map[string]int{}, Priors: map[string]int{}}
 	root := filepath.Join(r.Base, "scn-"+id)
 	os.RemoveAll(root)
-	if err := setup(filepath.Join(root, "m")); err != nil {
+	if err := setup(filepath.Join(root, "m"), sc); err != nil {
 		return nil, st, err
 	}
 	defer os.RemoveAll(root)
@@ -293,15 +372,23 @@ func (r *Runner) Run(sc *Scenario, id string) ([]Finding, *Stats, error) {
 	srcDir := filepath.Join(M, "src")
 	outAbs := filepath.Clean(filepath.Join(srcDir, sc.Place.Out))
 	outRel, _ := filepath.Rel(M, outAbs)
-	w := &world{prior: "absent"}
+	outReal := ""
+	if sc.Place.Symlink != "" {
+		outReal = filepath.Clean(filepath.Join(filepath.Dir(outAbs), sc.Place.Symlink))
+	}
+	w := &world{prior: "absent", broken: sc.IncompleteMod, outReal: outReal}
+	if sc.Place.Symlink != "" {
+		w.prior = "placeholder" // the link's target exists and is valid Go of the destination package
+	}
 	if sc.Place.Out == "../adir" {
 		w.prior = "dir"
 	}
 	var fs []Finding
+	san := func(s string) string { return strings.ReplaceAll(s, root, "$SCRATCH") }
 	add := func(step int, prop, class, site, format string, a ...any) {
-		fs = append(fs, Finding{Prop: prop, Class: class, Site: site, Step: step, Detail: fmt.Sprintf(format, a...)})
+		fs = append(fs, Finding{Prop: prop, Class: class, Site: site, Step: step, Detail: san(fmt.Sprintf(format, a...))})
 	}
-	tr := func(format string, a ...any) { st.Trace = append(st.Trace, fmt.Sprintf(format, a...)) }
+	tr := func(format string, a ...any) { st.Trace = append(st.Trace, san(fmt.Sprintf(format, a...))) }
 
 	for i := 0; i < len(sc.Steps); i++ {
 		step := sc.Steps[i]
@@ -374,7 +461,7 @@ func (r *Runner) Run(sc *Scenario, id string) ([]Finding, *Stats, error) {
 			tr("step %d: source package gets a syntax error", i)
 		case StepFix:
 			os.Remove(filepath.Join(srcDir, "zz_broken.go"))
-			w.broken = false
+			w.broken = sc.IncompleteMod
 			w.touched = true
 			tr("step %d: source package repaired", i)
 		case StepRun:
@@ -461,7 +548,13 @@ func (r *Runner) runStep(sc *Scenario, i int, step Step, w *world, M, srcDir, ou
 			return
 		}
 		pre := snapshot(M)
-		act := r.runMoq(srcDir, refArgs, step.Fault, tmp)
+		var act procResult
+		if step.Fault.Action == "devfull" {
+			act = r.runMoqStdout(srcDir, refArgs, "/dev/full", tmp)
+			act.Log = append(act.Log, simos.LogEntry{Prim: "real-stdout", Path: "/dev/full", Fault: "devfull:ENOSPC"})
+		} else {
+			act = r.runMoq(srcDir, refArgs, step.Fault, tmp)
+		}
 		st.MoqRuns++
 		post := snapshot(M)
 		fired := firedFaults(act.Log)
@@ -489,7 +582,11 @@ func (r *Runner) runStep(sc *Scenario, i int, step Step, w *world, M, srcDir, ou
 
 	// ---- the actual run
 	args := append([]string(nil), base...)
-	args = append(args, "-out", pl.Out)
+	outArg := pl.Out
+	if pl.Abs {
+		outArg = outAbs
+	}
+	args = append(args, "-out", outArg)
 	if step.Rm {
 		args = append(args, "-rm")
 	}
@@ -520,8 +617,12 @@ func (r *Runner) runStep(sc *Scenario, i int, step Step, w *world, M, srcDir, ou
 			excused["created "+relTo(M, e.Path)] = true
 		}
 	}
+	realRel := ""
+	if w.outReal != "" {
+		realRel, _ = filepath.Rel(M, w.outReal)
+	}
 	for _, d := range diffTrees(pre, post, outRel) {
-		if excused[d] {
+		if excused[d] || (realRel != "" && strings.HasSuffix(d, " "+realRel)) {
 			continue
 		}
 		add(i, "C18", "tree-changed-outside-out", "", "%s changed the tree outside -out: %s", cmdline, d)
@@ -530,7 +631,7 @@ func (r *Runner) runStep(sc *Scenario, i int, step Step, w *world, M, srcDir, ou
 		if !mutating(e) {
 			continue
 		}
-		if !allowedPath(e, outAbs) {
+		if !allowedPath(e, outAbs) && !(w.outReal != "" && allowedPath(e, w.outReal)) {
 			add(i, "C18", "mutation-outside-out", e.Prim, "%s performed %s on %s", cmdline, e.Prim, relTo(M, e.Path))
 		}
 	}
@@ -546,7 +647,7 @@ func (r *Runner) runStep(sc *Scenario, i int, step Step, w *world, M, srcDir, ou
 	checkFailure("-out mode", act, args)
 	faultOnOut := false
 	for _, e := range act.Log {
-		if e.Fault != "" && (allowedPath(e, outAbs)) {
+		if e.Fault != "" && (allowedPath(e, outAbs) || (w.outReal != "" && allowedPath(e, w.outReal))) {
 			faultOnOut = true
 		}
 	}
